@@ -442,7 +442,10 @@ class SetFanLevelReq(PicmgMessage):
         GroupExtensionIdentifier('picmg_identifier', PICMG_IDENTIFIER),
         UnsignedInt('fru_id', 1),
         UnsignedInt('fan_level', 1),
-        UnsignedInt('extra_byte', 1),
+        # PICMG 3.0 R3.0: optional "local control enable state"
+        Optional(
+            UnsignedInt('local_control_enable', 1),
+        ),
     )
 
 
